@@ -83,6 +83,7 @@ def gen_job(rng, kind=None):
     mv = linkcommon.gen_movie(rng, thorough=False, plant_history=True)
     mv["frames"] = mv["frames"][:rng.randint(1, 6)]
     mv["kind"] = kind
+    mv["scale_pow"] = 0
     mv["entry"] = kind
     mv["strategy"] = rng.choice(["recursive", "nonrecursive", "numba", None])
     return mv
